@@ -33,7 +33,7 @@ func run(c *vf.Ctx) {
 		"(WithPassword, WithNTHash, struct literal, hash slice sharing a buffer with the challenge; Hash, String, NTResponse, LMResponse, ntlm.CreateAuthenticateMessage payloads); " +
 		"NTLMv2: user x domain case/script alphabets x passwords x server/client challenge lattices through NewNTLMv2/Hash/HashHex/ToHashcatString and ntlm.CreateAuthenticateMessage (target-info lists, both character sets). " +
 		"distinct = distinct (entry point, input tuple) reaching the comparison")
-	c.Assume("crypto/des, crypto/hmac, crypto/md5 (stdlib), x/crypto/md4 and unicode.ToUpper are correct; reference self-tested on MS-NLMP 4.2.2 and 4.2.4 vectors; time stamps are read from the blob and never compared with a clock; " +
+	c.Assume("crypto/des, crypto/hmac, crypto/md5 (stdlib), x/crypto/md4 and unicode.ToUpper are correct; reference self-tested on MS-NLMP 4.2.2 and 4.2.4 vectors and cross-checked against github.com/Azure/go-ntlmssp; time stamps are read from the blob and never compared with a clock; " +
 		"Windows' own upper-casing table is approximated by Go's unicode.ToUpper (same function on both sides of the NTLMv2 server-side check)")
 	parity(c)
 	v1Lattice(c)
@@ -376,7 +376,9 @@ func v1Passwords(c *vf.Ctx) {
 		if cases[i].ascii {
 			wantLM := rc.DESL(rc.LM(pw), ch)
 			if call(t, "ntlmv1.LMResponse", desc("LMResponse()"), func() { got, err = n.LMResponse() }) {
-				t.check("C02/ntlmv1/WithPassword/LMResponse", err == nil && bytes.Equal(got, wantLM), func() string { return fmt.Sprintf("%s = %x,%v want DESL(LMOWFv1) = %x", desc("LMResponse()")(), got, err, wantLM) })
+				t.check("C02/ntlmv1/WithPassword/LMResponse", err == nil && bytes.Equal(got, wantLM), func() string {
+					return fmt.Sprintf("%s = %x,%v want DESL(LMOWFv1) = %x", desc("LMResponse()")(), got, err, wantLM)
+				})
 			}
 		}
 		// the object built as a plain struct literal (NTHash derived lazily inside Hash)
@@ -452,10 +454,14 @@ func v1Authenticate(c *vf.Ctx) {
 		}
 		nt := rc.NT(pw)
 		want := rc.DESL(nt[:], ch)
-		t.check("C02/ntlm.CreateAuthenticateMessage/v1/NtChallengeResponse", bytes.Equal(ntr, want), func() string { return fmt.Sprintf("%s: NtChallengeResponse %x want DESL(NTOWFv1, challenge) = %x", desc(), ntr, want) })
+		t.check("C02/ntlm.CreateAuthenticateMessage/v1/NtChallengeResponse", bytes.Equal(ntr, want), func() string {
+			return fmt.Sprintf("%s: NtChallengeResponse %x want DESL(NTOWFv1, challenge) = %x", desc(), ntr, want)
+		})
 		if rn.IsASCII(pw) {
 			wantLM := rc.DESL(rc.LM(pw), ch)
-			t.check("C02/ntlm.CreateAuthenticateMessage/v1/LmChallengeResponse", bytes.Equal(lmr, wantLM), func() string { return fmt.Sprintf("%s: LmChallengeResponse %x want DESL(LMOWFv1, challenge) = %x", desc(), lmr, wantLM) })
+			t.check("C02/ntlm.CreateAuthenticateMessage/v1/LmChallengeResponse", bytes.Equal(lmr, wantLM), func() string {
+				return fmt.Sprintf("%s: LmChallengeResponse %x want DESL(LMOWFv1, challenge) = %x", desc(), lmr, wantLM)
+			})
 		}
 	})
 }
